@@ -79,6 +79,14 @@ def bool_formula(e, atom_of):
                                 ast.NotEq: ast.Eq}[type(e.ops[0])]()],
                       e.comparators)
     return ~bool_formula(pos, atom_of)
+  # a count compared with an integer constant: n < k == n <= k-1, n >= k == n > k-1
+  if isinstance(e, ast.Compare) and len(e.ops) == 1 and isinstance(
+      e.ops[0], (ast.Lt, ast.GtE)) and isinstance(e.left, ast.Call) and isinstance(
+          e.left.func, ast.Name) and e.left.func.id == 'len' and isinstance(
+              e.comparators[0], ast.Constant) and type(e.comparators[0].value) is int:
+    k = ast.Constant(e.comparators[0].value - 1)
+    return bool_formula(ast.Compare(
+        e.left, [ast.LtE() if isinstance(e.ops[0], ast.Lt) else ast.Gt()], [k]), atom_of)
   # a > b == not (a <= b);  a >= b == not (a < b)
   if isinstance(e, ast.Compare) and len(e.ops) == 1 and isinstance(
       e.ops[0], (ast.Gt, ast.GtE)):
